@@ -895,7 +895,7 @@ fn icy_strategy() -> BoxedStrategy<IcyCase> {
         0u8..8,
         // 0..=2 fonts in slots 0..=3; the large ones cost milliseconds to load, so most files carry none
         prop_oneof![
-            30 => Just(Vec::new()),
+            160 => Just(Vec::new()),
             2 => vec((0u8..=3, 1u8..=3), 1..=2),
             2 => vec((0u8..=3, prop_oneof![3 => 4u8..=6, 1 => 7u8..=8]), 1..=1),
             1 => ((0u8..=3, 4u8..=6), (0u8..=3, 1u8..=3)).prop_map(|(a, b)| vec![a, b]),
@@ -2074,12 +2074,12 @@ fn main() {
          plus any of ice colours, insert mode, top/bottom and left/right margins, origin mode, Unicode buffer type; decfra_states repeats the windows 0xF8..0x107, 0x1F8..0x207, \
          0xD700..0xE0FF, 2^16+-8, 2^17+-8, 0x10FFF8..0x110007 for ten such states (boundary windows only for the two largest fonts and the DCS state); the macro parts use the same states. clipboard: records for Layer::from_clipboard_data, all 65536 char values enumerated, sizes 0..=8 x 0..=5 generated. \
          icy: .icy files (engine-written template, zTXt payloads rebuilt from doc/FileFormats/ICEDFormat.md) whose LAYER_0 / LAYER_0~k chunks carry long-form char fields over all 32 bits, \
-         whose title / FONT name byte strings include ill-formed UTF-8 (table of 21 classic forms, enumerated), optional SAUCE chunk with arbitrary CP437 bytes. fonts: PSF1 / PSF2 / raw \
+         whose title / FONT name byte strings include ill-formed UTF-8 (table of 21 classic forms, enumerated), optional SAUCE chunk with arbitrary CP437 bytes; 0..=2 FONT_n chunks in front of the layer (fonts of 256 / 512 / 0xD801 / 0xDC00 / 0xE000 / 2^16 / 2^17 glyphs, ~3 % of generated files; icy_fonts: 8 fonts x cell font page n / n+1 / 0 x first / continuation chunk x long / short records, each file walking 0xD7F0..0xE010, glyph count +-2, 0x10FFFF, 0x110000, 2^31-1, 2^32-1 through its cells). fonts: PSF1 / PSF2 / raw \
          data with 0..=2^17 glyphs (height 1..32, at most 2^18 bytes) through BitFont::from_bytes, the CTerm font DCS, an .icy FONT chunk and Buffer::set_font + selection + drawing. font_unitab: PSF1 (mode bits 0x01/0x02/0x04 in every \
          combination) and PSF2 (flags bit 0) fonts followed by the optional unicode table written from the PSF specification: per glyph 0..=3 values, optional sequences, terminator; values from \
          {ASCII, Latin-1, 0xD7FF, 0xD800, 0xDBFF, 0xDC00, 0xDFFF, 0xE000, 0xFFFD, 0xFFFE, 0xFFFF, any 16-bit; PSF2 also > 0xFFFF, > 0x10FFFF and ill-formed UTF-8}; table complete, one list short / long, \
          terminator missing, stray byte / value at the end, absent; table bit set or not; the same four routes (format x edge value x position x variant x route enumerated). macros: DECDMAC definitions in hex and text \
-         encoding with bytes 0x80..0xFF (all 256 values x 4 forms and 21 ill-formed UTF-8 byte runs x 2 encodings enumerated), invoked 0..=2 times. scalar_streams: parser input as `char` above U+00FF (a front end on a UTF-8 connection decodes before feeding): every parser (14 configurations) x 5 buffer types x \
+         encoding with bytes 0x80..0xFF (all 256 values x 4 forms and 21 ill-formed UTF-8 byte runs x 2 encodings enumerated), invoked 0..=2 times; macro_sizes: hex repeat sections with counts 32766 / 32767 / 65535 / 65536 / 131071 / 262136 / 262137 / 300000 / 524271..524274 / 2^20-1 / 2^20 x bodies E9, 41E9, E941, C3A9, F09F9880, E94141 x 0..=2 ASCII bytes in front (stored body <= 2.3 MB), invoked once. scalar_streams: parser input as `char` above U+00FF (a front end on a UTF-8 connection decodes before feeding): every parser (14 configurations) x 5 buffer types x \
          terminal / document buffer x 30 characters (encoding-form boundaries, supplementary characters whose low 16 bits are 0xD800..0xE07F) x ~85 placements (alone, after each lead-in of the \
          emulation, CSI parameter / intermediate / final, REP target and count, avatar repeat char and count, @X / Ctrl-A / pipe codes, ATASCII / Viewdata escapes, OSC / APS / DCS strings, macro bodies, \
          music) enumerated, 1..=4 such pieces generated; the same text as BOM-marked UTF-8 file through the .ans/.avt/.pcb/.msg/.an1/.asc loaders. \
